@@ -109,7 +109,11 @@ func (g *Gen) text(kind string) string {
 		s += "\n\n- item one\n- item two\n"
 	}
 	if g.Text == "huge" && kind == "body" && g.R.Chance(1, 4) {
-		s += strings.Repeat("x𝔘 line of filler text\n", 200+g.R.Intn(3000))
+		n := 200 + g.R.Intn(3000)
+		if g.R.Chance(1, 5) {
+			n = 8000 + g.R.Intn(18000) // several hundred KB: many scanner-buffer doublings
+		}
+		s += strings.Repeat("x𝔘 line of filler text\n", n)
 	}
 	return fmt.Sprintf("%s %d", s, g.R.Intn(100000))
 }
